@@ -1,4 +1,5 @@
 import inspect
+import re
 from typing import Any, Dict, Generic, Iterable, Literal, Optional, Tuple, Type, TypeVar, Union
 
 import pydantic as pd
@@ -10,7 +11,9 @@ from pjrpc.server.typedefs import ExcludeFunc
 
 
 def to_camel(string: str) -> str:
-    return ''.join(word.capitalize() for word in string.split('_'))
+    # method names may be dotted (prefixes): a dot inside a model name makes pydantic shorten the component name
+    # to the part after the last dot, so the components of `v1.add` and `v2.add` would overwrite each other
+    return ''.join(word.capitalize() for word in re.split(r'[_.]', string))
 
 
 MethodT = TypeVar('MethodT', bound=str)
